@@ -7,7 +7,6 @@ package nom
 // Previous() recurses into the first descendant block of a contract receive; for a block without descendants it is
 // (PreviousHash, Height-1).
 //@ func AccountBlock.Previous(ab)
-//@   requires ab != nil
 //@   ensures len(ab.DescendantBlocks) == 0 ==> result.Hash == ab.PreviousHash && result.Height == (ab.Height + pow2(64) - 1) % pow2(64)
 //@   modifies nothing
 
@@ -40,3 +39,15 @@ package nom
 //@   assert[total] ab || ba
 //@   assert[antisymmetric] ab && ba ==> bytescmpv(types.headerBytes(list[a].Address, list[a].Height, list[a].Hash), types.headerBytes(list[b].Address, list[b].Height, list[b].Hash)) == 0
 //@   assert[transitive] ab && bc ==> ac
+
+// The momentum hash is SHA3-256 over the concatenation of the covered fields; the hash function stays uninterpreted.
+// contentHash is the digest of the header list (MomentumContent.Hash), a function of the content slice identity here.
+//@ spec mHashUF(version int, chainId int, prev arr, height int, timestamp int, data int, content int, changes arr) arr
+//@ spec contentHash(arrId int, off int, n int) int
+//@ spec mHashOf(m *Momentum) arr = mHashUF(m.Version, m.ChainIdentifier, m.PreviousHash, m.Height, m.TimestampUnix, bytesval(m.Data), contentHash(m.Content.arr, m.Content.off, len(m.Content)), m.ChangesHash)
+
+//@ func Momentum.ComputeHash(m)
+//@   trusted
+//@   requires m != nil
+//@   ensures result == mHashOf(m)
+//@   modifies nothing
